@@ -257,7 +257,31 @@ func probesFor(pattern string, methods []string, wide bool) []Probe {
 	return out
 }
 
-func subjectsFor(method, pattern string) []Subj {
+// randomEdits: 1-3 random single-character edits of s over an alphabet made of
+// its own characters, the separators, and a few characters special to regular
+// expressions and to the matcher ('\n' is not matched by '.')
+func randomEdits(r *c.Rng, s string) string {
+	alpha := s + "/.:x*$\\(+Z\n"
+	b := []byte(s)
+	for n := r.Range(1, 3); n > 0; n-- {
+		ch := alpha[r.Intn(len(alpha))]
+		switch pos := r.Intn(len(b) + 1); r.Intn(3) {
+		case 0: // insert
+			b = append(b[:pos], append([]byte{ch}, b[pos:]...)...)
+		case 1: // delete
+			if pos < len(b) {
+				b = append(b[:pos], b[pos+1:]...)
+			}
+		default: // replace
+			if pos < len(b) {
+				b[pos] = ch
+			}
+		}
+	}
+	return string(b)
+}
+
+func subjectsFor(r *c.Rng, method, pattern string) []Subj {
 	out := []Subj{}
 	seen := map[string]bool{}
 	add := func(s string) {
@@ -266,7 +290,8 @@ func subjectsFor(method, pattern string) []Subj {
 			out = append(out, Subj{S: s})
 		}
 	}
-	for i, u := range urlsFor(pattern, true) {
+	urls := urlsFor(pattern, true)
+	for i, u := range urls {
 		add(method + ":::" + u)
 		switch i % 5 {
 		case 0:
@@ -283,6 +308,27 @@ func subjectsFor(method, pattern string) []Subj {
 	}
 	add("")
 	add(method + ":::")
+	// random subjects, not derived position by position from the pattern: random
+	// edits of found and of unfound subjects, two subjects glued, random strings
+	for n := 0; n < 10; n++ {
+		base := method + ":::" + urls[r.Intn(len(urls))]
+		switch r.Intn(4) {
+		case 0:
+			add(randomEdits(r, base) + base)
+		case 1:
+			add(base + randomEdits(r, "/z"))
+		default:
+			add(randomEdits(r, base))
+		}
+	}
+	alpha := method + ":/." + strings.Trim(pattern, "./") + "x\n"
+	for n := 0; n < 4; n++ {
+		b := make([]byte, r.Range(0, 14))
+		for i := range b {
+			b[i] = alpha[r.Intn(len(alpha))]
+		}
+		add(string(b))
+	}
 	return out
 }
 
